@@ -91,6 +91,7 @@ func (r *Router) SetErrorHandler(h func(error)) {
 
 // Does path match pattern?
 func pathMatch(pattern Route, path string) bool {
+	verifScanPoint(pattern.pattern, path)
 	return pattern.regexMatcher.regexp.MatchString(path)
 }
 
